@@ -13,32 +13,34 @@ import (
 // Exec verifies one function: symbolic execution over go/ssa with loop cuts
 // at invariants and call cuts at contracts.
 type Exec struct {
-	ctx          *Ctx
-	D            *Decls
-	fn           *ssa.Function
-	contract     *FuncContract
-	obls         []*Obligation
-	frameSeq     int
-	paths        int
-	disc         *discovery // non-nil while a loop body is explored to find what it writes
-	safety       bool
-	errs         []string // unsupported constructs met (make the function UNDECIDED)
-	externs      map[string]bool
-	assumed      map[string]bool
-	inlined      map[string]bool
-	entry        *State
-	subKinds     map[string]int
-	retCount     int
-	litSeen      map[string]Term
-	curPos       string
-	depth        int
-	loopInitDone map[string]bool
-	fenv         *Env
-	canaries     bool
-	refHeaps     map[string]bool
-	addrBoxes    map[string]AddrV
-	noSafety     bool
-	canaryN      map[string]int
+	ctx               *Ctx
+	D                 *Decls
+	fn                *ssa.Function
+	contract          *FuncContract
+	obls              []*Obligation
+	frameSeq          int
+	paths             int
+	disc              *discovery // non-nil while a loop body is explored to find what it writes
+	safety            bool
+	errs              []string // unsupported constructs met (make the function UNDECIDED)
+	externs           map[string]bool
+	assumed           map[string]bool
+	inlined           map[string]bool
+	entry             *State
+	subKinds          map[string]int
+	retCount          int
+	litSeen           map[string]Term
+	curPos            string
+	depth             int
+	loopInitDone      map[string]bool
+	fenv              *Env
+	canaries          bool
+	refHeaps          map[string]bool
+	addrBoxes         map[string]AddrV
+	noSafety          bool
+	appendMode        int
+	lastAppendTrivial bool
+	canaryN           map[string]int
 }
 
 type discovery struct {
@@ -110,14 +112,28 @@ func (ex *Exec) refAxiom(name, sort string) {
 		return
 	}
 	ex.D.seen[key] = true
-	if strings.HasPrefix(sort, "(Array Int (Array Int ") {
-		ex.D.lines = append(ex.D.lines, declLine{sym, fmt.Sprintf("(assert (forall ((a Int) (i Int)) (! (<= (root (select (select %s a) i)) top0) :pattern ((select (select %s a) i)))))", sym, sym)})
+	if k, ok := innerKeySort(sort); ok {
+		ex.D.lines = append(ex.D.lines, declLine{sym, fmt.Sprintf("(assert (forall ((a Int) (i %s)) (! (<= (root (select (select %s a) i)) top0) :pattern ((select (select %s a) i)))))", k, sym, sym)})
 	} else if sort == ArrSort(SInt) {
 		ex.D.lines = append(ex.D.lines, declLine{sym, fmt.Sprintf("(assert (forall ((r Int)) (! (<= (root (select %s r)) top0) :pattern ((select %s r)))))", sym, sym)})
 	}
 }
 
 func (ex *Exec) refHeap(name string, twoD bool) { ex.markRef(name) }
+
+// innerKeySort: for a sort (Array Int (Array K Int)) of reference-valued two-level heaps
+// (slice elements, map values) returns K.
+func innerKeySort(sort string) (string, bool) {
+	const pre = "(Array Int (Array "
+	if !strings.HasPrefix(sort, pre) || !strings.HasSuffix(sort, " Int))") {
+		return "", false
+	}
+	k := strings.TrimSuffix(strings.TrimPrefix(sort, pre), " Int))")
+	if strings.ContainsAny(k, " ()") {
+		return "", false
+	}
+	return k, true
+}
 
 func (ex *Exec) isRefHeap(name string) bool {
 	return ex.refHeaps[name] || strings.HasSuffix(name, "#arr") || strings.HasSuffix(name, "#ref")
@@ -136,8 +152,16 @@ func (ex *Exec) freshHeapVal(st *State, name, base, sort string) Term {
 		st.Assume(Le(App(SInt, "root", t), st.Top))
 	case sort == ArrSort(SInt):
 		st.Assume(Term{fmt.Sprintf("(forall ((r Int)) (! (<= (root (select %s r)) %s) :pattern ((select %s r))))", t.S, st.Top.S, t.S), SBool})
-	case sort == Arr2Sort(SInt):
-		st.Assume(Term{fmt.Sprintf("(forall ((a Int) (i Int)) (! (<= (root (select (select %s a) i)) %s) :pattern ((select (select %s a) i))))", t.S, st.Top.S, t.S), SBool})
+	default:
+		if k, ok := innerKeySort(sort); ok {
+			st.Assume(Term{fmt.Sprintf("(forall ((a Int) (i %s)) (! (<= (root (select (select %s a) i)) %s) :pattern ((select (select %s a) i))))", k, t.S, st.Top.S, t.S), SBool})
+		} else if strings.HasPrefix(sort, "(Array ") && strings.HasSuffix(sort, " Int)") {
+			// one level with a non-Int key (the inner array of a map heap)
+			k := strings.TrimSuffix(strings.TrimPrefix(sort, "(Array "), " Int)")
+			if !strings.ContainsAny(k, " ()") {
+				st.Assume(Term{fmt.Sprintf("(forall ((i %s)) (! (<= (root (select %s i)) %s) :pattern ((select %s i))))", k, t.S, st.Top.S, t.S), SBool})
+			}
+		}
 	}
 	return t
 }
